@@ -253,7 +253,7 @@ def _d2(chk, fb):
         if f.name == "getSample":
             vin = f.params[0]["name"]
             vout = [p["name"] for p in f.params if p["ty"].endswith("&") and not p["ty"].startswith("const ")]
-            rep = [p["name"] for p in f.params if p["ty"] == "bool"]
+            rep = [p["name"] for p in f.params if p["ty"] in ("bool", "const bool")]
             if not vout or not rep:
                 continue
             n += 1
